@@ -9,7 +9,8 @@ ythread.c `ABTI_ythread_callback_suspend_join`).
                   if old & JOIN:  yield-loop until state(T) == TERMINATED           (T is already on its way out)
                   else:           suspend_join: [scheduler ctx] store BLOCKED(J); store T.link := J     (in this order)
                                   ... resumed by T ... ; yield-loop until state(T) == TERMINATED
-  joiner (other): old = fetch_or(T.request, JOIN); if !(old & JOIN) { store T.link := dummy(futex); sleep on the futex }
+  joiner (other): if state(T) == TERMINATED return
+                  old = fetch_or(T.request, JOIN); if !(old & JOIN) { store T.link := dummy(futex); sleep on the futex }
                   busy-wait until state(T) == TERMINATED
   target exit:    l = load(T.link)
                   if l == NULL: old = fetch_or(T.request, JOIN)
@@ -65,11 +66,11 @@ def init : St :=
 
 def step (s : St) : Ev → Option St
   | .jCall ult =>
-    if s.jpc = .idle then some { s with jUlt := ult, jpc := if ult then .chk else .xfo } else none
+    if s.jpc = .idle then some { s with jUlt := ult, jpc := .chk } else none
   | .jLoadState t =>
     if t ≠ s.term then none else
     match s.jpc with
-    | .chk => some { s with jpc := if t then .done else .fo }
+    | .chk => some { s with jpc := if t then .done else (if s.jUlt then .fo else .xfo) }
     | .ylp => some { s with jpc := if t then .done else .ylp }
     | .xbusy => some { s with jpc := if t then .done else .xbusy }
     | _ => none
